@@ -8,13 +8,13 @@ E == TraceLog[l]
 ShapeOK == E.valid_json /\ E.is_object /\ E.nul_count = 1 /\ E.nul_at_end
 TraceInit == TraceLog[1].ev = "Reset" /\ InitWith(TraceLog[1].scen) /\ l = 2
 TReset == /\ Ev("Reset") /\ ph = "idle"
-          /\ scen' = E.scen /\ ci' = 0 /\ ph' = "idle" /\ nrep' = 0 /\ ngot' = 0 /\ nc2s' = 0 /\ ns2c' = 0
+          /\ scen' = E.scen /\ ci' = 0 /\ ph' = "idle" /\ nrep' = 0 /\ ngot' = 0 /\ nc2s' = 0 /\ ns2c' = 0 /\ abs' = {}
 TCS == Ev("CS") /\ CSend /\ E.i = ci' /\ E.tok = PTok(ci')
 TFR == Ev("FR") /\ ShapeOK /\ ((E.dir = "c2s" /\ FrameC2S) \/ (E.dir = "s2c" /\ FrameS2C))
 (* the handler reads exactly the value the client passed, with the flags it set *)
 THS == Ev("HS") /\ HSee /\ E.tok = PTok(ci) /\ E.more = (Cur.more > 0)
 (* the handler issues reply j *)
-THR == /\ Ev("HR") /\ HReply /\ E.j = nrep'
+THR == /\ Ev("HR") /\ HReply(E.absent) /\ E.j = nrep'
        /\ E.tok = RTok(ci, nrep') /\ E.continues = ContinuesOf(nrep')
        /\ E.kind = (IF nrep' = Total(Cur) THEN Cur.fin ELSE "reply")
        /\ E.res = "ok"
@@ -22,7 +22,8 @@ THR == /\ Ev("HR") /\ HReply /\ E.j = nrep'
 (* reply arrives as an error value with exactly that name (typed for the standard ones)     *)
 TCG == /\ Ev("CG") /\ CGet /\ E.j = ngot'
        \* (a Call with a nil out-value still consumes exactly its reply; only the value is not observable)
-       /\ ((E.nilout /\ E.kind = "reply") \/ E.tok = RTok(ci, ngot')) /\ E.continues = ContinuesOf(ngot')
+       /\ ((E.nilout /\ E.kind = "reply") \/ (E.absent /\ AbsentAtClient(ngot')) \/ (~E.absent /\ ~AbsentAtClient(ngot') /\ E.tok = RTok(ci, ngot')))
+       /\ E.continues = ContinuesOf(ngot')
        /\ E.kind = (IF ngot' = Total(Cur) THEN Cur.fin ELSE "reply")
        /\ E.name_ok
 THRet == Ev("HRET") /\ HReturn
